@@ -470,6 +470,7 @@ def gen_total(rng, n):
 def gen_hash(rng, n):
     for _ in range(n):
         x, y = cmp_pair(rng) if rng.random() < 0.85 else nan_pair(rng)
+        if rng.random() < 0.05: x, y = zero_any(rng), zero_any(rng)
         yield line(rng.choice(['hasheq', 'hashset']), 0, 0, x, y)
 
 
@@ -1404,6 +1405,16 @@ def gen_tiny_after(rng, n):
             x, y = pair_mul(rng); yield line('mul_ta', rng.choice(MODES), status_in(rng), x, y)
 
 
+def zero_any(rng):
+    """a zero in any of its spellings: canonical, coefficient field >= 10^34 (boundary values over-represented), large-coefficient form;
+    the exponents 0, -1, 1 and the extremes over-represented (an exponent field of 6176 looks like an integer)"""
+    e = rng.choice([0, 0, 1, -1, QMIN, QMAX, expo(rng), expo(rng)])
+    k = rng.random()
+    if k < 0.4: return fin(rng.randint(0, 1), 0, e)
+    if k < 0.8: return noncanon_small(rng, e)
+    return noncanon_large(rng, e)
+
+
 def gen_hashslice(rng, n):
     """C20: hash_slice of two slices whose elements are pairwise equal values (other cohort member, other zero sign, other NaN) must feed
     identical words to the Hasher; op hashsliceeq n x1..xn y1..yn"""
@@ -1412,7 +1423,7 @@ def gen_hashslice(rng, n):
         if d[0] == 'nan': return nan(rng)
         if d[0] == 'inf': return infinity(rng) & ~(1 << 127) | (x & (1 << 127))
         _, s_, c, q = d
-        if c == 0: return fin(rng.randint(0, 1), 0, expo(rng))
+        if c == 0: return zero_any(rng)
         cc, qq = c, q
         if rng.random() < 0.5:
             while cc % 10 == 0 and qq < QMAX and rng.random() < 0.8: cc //= 10; qq += 1
@@ -1420,6 +1431,6 @@ def gen_hashslice(rng, n):
             while cc * 10 < T34 and qq > QMIN and rng.random() < 0.8: cc *= 10; qq -= 1
         return fin(s_, cc, qq)
     for _ in range(n):
-        k = rng.randint(0, 5); xs = [datum(rng, 0.35) for _ in range(k)]
+        k = rng.randint(0, 5); xs = [zero_any(rng) if rng.random() < 0.12 else datum(rng, 0.35) for _ in range(k)]
         ys = [twin(x) if rng.random() < 0.9 else datum(rng, 0.3) for x in xs]
         yield line('hashsliceeq', 0, 0, '%x' % k, *(xs + ys))
